@@ -47,13 +47,14 @@ def main():
         structured = [[i, i, i, i] for i in range(M3)] + [[i, j, j, i] for i in range(M3) for j in range(M3) if i != j][:4] + [[i, j, i, j] for i in range(M3) for j in range(M3) if i != j][:2]
         m["chi"] = structured + rng.sample(allq, 6 if not thorough else 40)
     ms = ms + ms3
+    ms += exact.with_phases(rng, ms)[: (3 if not thorough else 12)]
     res, pred = exact.evaluate(ms, "C02/gen", timeout=3000)
     c.add_tlc(res, "LehmannGen")
     if res.violated:
         pv.log("INFRA: Lehmann.tla self-check %s failed" % res.violated)
         sys.exit(2)
     betas = ["0.6931471805599453", "1.0", "20.0"]
-    recs, crashed = pv.run_driver_resilient(exe, [exact.scenario(m, pred[m["id"]], queries=[{"q": "index"}]) for m in ms], timeout=3000)
+    recs, crashed = exact.run_split(exe, [exact.scenario(m, pred[m["id"]], queries=[{"q": "index"}]) for m in ms], ms)
     tabs = {r["id"]: r["tab"] for r in recs if r.get("e") == "Q" and "tab" in r}
     scen = []
     for m in ms:
@@ -68,7 +69,7 @@ def main():
         for b in betas if (m["M"] == 2 or thorough) else betas[1:]:
             qs.append({"q": "chi", "beta": b, "quads": quads, "triples": m["_tri"], "tables": True, "tag": b})
         scen.append(exact.scenario(m, pred[m["id"]], queries=qs))
-    recs, crashed = pv.run_driver_resilient(exe, scen, timeout=3000)
+    recs, crashed = exact.run_split(exe, scen, ms)
     byid = {}
     for r in recs:
         if r.get("e") == "Q":
@@ -76,7 +77,7 @@ def main():
     for sc in scen:
         m = [x for x in ms if x["id"] == sc["id"]][0]
         p = pred[m["id"]]
-        desc = json.dumps({k: m[k] for k in ("M", "eps", "U", "rot", "bog")})
+        desc = json.dumps({k: m[k] for k in ("M", "eps", "U", "rot", "bog", "ph")})
         if sc["id"] in crashed:
             c.violation("library crashed on model %s: %s" % (desc, crashed[sc["id"]][-200:]), sc, cls="crash")
             continue
@@ -129,7 +130,7 @@ def main():
                     c.nontriv("%s %s" % (m["id"], q))
             if ok:
                 c.traces += 1
-    c.sample({"model": {k: ms[3][k] for k in ("M", "eps", "U", "rot", "bog")}, "betas": betas, "triples": "all of {-2..1}^3", "quads": "all 16"})
+    c.sample({"model": {k: ms[3][k] for k in ("M", "eps", "U", "rot", "bog", "ph")}, "betas": betas, "triples": "all of {-2..1}^3", "quads": "all 16"})
     c.rule = ("exact family: %d two-mode models x all 16 quadruples x all 64 triples of {-2..1}^3 x 3 betas, %d three/four-mode models x sampled quadruples and triples; "
               "4 evaluation paths each; non-trivial = distinct (model, quadruple) with at least one closed path" % (len(ms) - len(ms3), len(ms3)))
     c.trusted = ["TLC", "tools/exact.py: symbolic time-ordered integration of exponentials (about 40 lines) and evaluation (mpmath)"]
